@@ -1682,7 +1682,10 @@ def _reduce_blockwise(
     )
 
     if _is_arg_reduction(agg):
-        results["intermediates"][0] = np.unravel_index(results["intermediates"][0], array.shape)[-1]
+        # (positions are carried in the final dtype, which is floating when the user's fill_value is NaN or fractional)
+        results["intermediates"][0] = np.unravel_index(
+            results["intermediates"][0].astype(np.intp, copy=False), array.shape
+        )[-1]
 
     result = _finalize_results(results, agg, axis, expected_groups, reindex=reindex)
     return result
